@@ -47,13 +47,28 @@ def gen_case(rng, tier, index):
                               if "sec" in ln), len(c["lines"]))
             c["lines"].insert(rng.randrange(0, first_sec + 1),
                               {"k": k, "t": rng.choice(names)})
+        if c["fmt"] == "elf" and rng.random() < 0.4:
+            # an unknown name mentioned (only, or first) by a symbol
+            # attribute directive
+            c["attr_undef"] = [rng.choice([".globl", ".weak", ".hidden",
+                                           ".local", ".type"]),
+                               rng.choice(["nope0", "nope7"]),
+                               rng.random() < 0.5]
         return c
     if w == 1:
         c = c12.gen_case(rng, tier, index)
         c["w"] = "multidef"
-        c["dup"] = rng.choice(["module", "own"])
+        c["dup"] = rng.choice(["module", "own", "module-temp"])
         name = rng.choice(["msym_code", "msym_data", "mext"]) \
             if c["dup"] == "module" else "dupl"
+        if c["dup"] == "module-temp":
+            # the module owns a symbol with an assembler-private name and
+            # the text defines that very name while a temporary-label suffix
+            # is in effect (as under RewritingContext)
+            name = ("L" if (c["isa"], c["fmt"]) == ("ia32", "pe")
+                    else ".L") + "mtmp"
+            c["temp_name"] = name
+            c["suffix"] = rng.choice(["_1", "_77"])
         pos = rng.randrange(0, len(c["lines"]) + 1)
         c["lines"].insert(pos, {"l": name})
         if c["dup"] == "own":
@@ -80,9 +95,16 @@ def assemble(c, chunks):
     from gtirb_rewriting.assembler import Assembler
     from gtirb_rewriting.assembly import X86Syntax
     m, msyms = c12.target_module(c)
+    kw = {}
+    if c.get("temp_name"):
+        s = gtirb.Symbol(c["temp_name"],
+                         payload=msyms["msym_code"].referent)
+        m.symbols.add(s)
+        msyms[c["temp_name"]] = s
+        kw["temp_symbol_suffix"] = c["suffix"]
     asm = Assembler(m, trivially_unreachable=c["unreachable"],
                     implicit_cfi_procedure=c["implicit_cfi"],
-                    allow_undef_symbols=c["allow_undef"])
+                    allow_undef_symbols=c["allow_undef"], **kw)
     for text in chunks:
         asm.assemble(text, X86Syntax.INTEL if c["intel"] else X86Syntax.ATT)
     return asm.finalize(), m, msyms
@@ -153,6 +175,13 @@ def run_undef(c):
     text = c12.render(c)
     unknown = sorted({ln["t"] for ln in c["lines"]
                       if ln.get("t", "").startswith("nope")})
+    attr = c.get("attr_undef")
+    if attr:
+        d = f"{attr[0]} {attr[1]}" + (", @function" if attr[0] == ".type"
+                                      else "") + "\n"
+        text = d + text if attr[2] else text + d
+        unknown = sorted(set(unknown) | {attr[1]})
+        ctr["undef_by_attribute_directive"] = 1
     try:
         result, m, msyms = assemble(c, [text])
         exc = None
@@ -173,7 +202,8 @@ def run_undef(c):
         else:
             for name in unknown + ["undef0", "undef1"]:
                 ss = [s for s in result.symbols if s.name == name]
-                used = any(ln.get("t") == name for ln in c["lines"])
+                used = any(ln.get("t") == name for ln in c["lines"]) or (
+                    attr is not None and attr[1] == name)
                 if not used:
                     continue
                 if len(ss) != 1:
